@@ -248,10 +248,21 @@ def rand_items(rng, n):
     return items
 
 
+# floating-point sketches: all weights of one history share a power-of-two scale (2^0, 2^-30, 2^-60), so that every sum stays exact
+# while totals far below 1 (below the type's epsilon, too) occur: "empty" means total weight == 0, not "small"
+_F64_SCALE = [Fraction(1)]
+
+
+def pick_scale(rng, kind):
+    _F64_SCALE[0] = Fraction(1, 2 ** rng.choice([0, 0, 0, 30, 60])) if kind == "f64" else Fraction(1)
+
+
 def rand_weight(rng, kind, signed):
     r = rng.random()
     if kind == "f64":
         v = rng.choice([0, 1, 1, 1, 2, 3, 5, 10, 100, 2**20, 2**40]) if r < 0.8 else Fraction(rng.randrange(1, 64), 4)
+        if _F64_SCALE[0] != 1:
+            v = Fraction(rng.choice([0, 1, 1, 1, 2, 3, 5, 10])) * _F64_SCALE[0]
     elif kind == "u64":
         v = rng.choice([0, 1, 1, 1, 2, 3, 5, 10, 1000, 2**32, 2**50])
     else:
@@ -287,6 +298,7 @@ def hist_streams(rng, tier):
     """1-3 sketches, random updates, queries, dumps, copies, merges (valid and refused), round trips."""
     h = HB()
     kind = rng.choice(["i64", "u64", "f64"])
+    pick_scale(rng, kind)
     signed = kind != "u64" and rng.random() < 0.3
     cfg = rand_cfg(rng, tier)
     ids = [h.new(kind, *cfg)]
@@ -336,6 +348,7 @@ def hist_merge_tree(rng, tier):
     serialization points, and a reference sketch fed the concatenated streams."""
     h = HB()
     kind = rng.choice(["i64", "u64", "f64"])
+    pick_scale(rng, kind)
     signed = kind != "u64" and rng.random() < 0.3
     cfg = rand_cfg(rng, tier)
     big = cfg[0] * cfg[1] > 20000
@@ -386,6 +399,7 @@ def hist_merge_tree(rng, tier):
 
 def hist_boundary(rng, tier):
     """constructor argument checks, suggest_* helpers, refused merges."""
+    _F64_SCALE[0] = Fraction(1)
     h = HB()
     kind = rng.choice(["i64", "u64", "f64"])
     for _ in range(rng.randrange(2, 6)):
